@@ -365,8 +365,12 @@ func C05(r *eng.Run) {
 	for _, z := range LeadSweep(nl) {
 		leads = append(leads, z.String())
 	}
+	leads = append(leads, LimitPrefixes()...)
 	for _, ld := range leads {
 		for _, L := range []int{19, 20, 21, 37, 38, 39, 40, 41, 45} {
+			if L <= len(ld) {
+				continue
+			}
 			jobs = append(jobs, job{"T:" + ld + ":", L}, job{"T:" + ld + ":" + strings.Repeat("0", L-len(ld)-1) + "1", L})
 		}
 	}
